@@ -139,6 +139,49 @@ def witness(cfg: CFG, prev, at: Tuple[int, str], last_edge: Tuple[int, str]) -> 
 
 
 # ---------------------------------------------------------------------------
+def frame_contents(ctx):
+    """R05.14.  DataHandler.save_time_step is followed (pvs/shapes.py) for frame 0 and two further frames with the state
+    {step: i * buffer, time: i, dt: 1}, the data {psi, mu} and records {dt, mu, theta, screening_iterations}; afterwards the model
+    output file must hold data/0, data/1, data/2, each with the attributes step / time / dt equal to what was handed in, the datasets
+    psi and mu, and (frames 1, 2) a running_state group with the four records."""
+    from ..shapes import MANY, write_frames
+    repo = ctx.repo
+    f = repo.func(RUNNER, "DataHandler.save_time_step")
+    sizes = {"dt": 1, "mu": MANY, "theta": MANY, "screening_iterations": 1}
+    out, problems = write_frames(repo, sizes, MANY, 2)
+    if problems:
+        raise AnalysisError(f"the frame writer does not run through in the model: {problems[0]}")
+    data = out.items["data"]
+    names = sorted(map(str, data.items))
+    ctx.ob("R05.14", "three calls of the frame writer leave the frame groups 0, 1, 2", names == ["0", "1", "2"], detail=names, where=f.fq, loc=loc(f, f.node),
+           construct="frame group names", message=f"after three frames the output file holds the groups {names}",
+           consequence="frames are not numbered consecutively from 0: get_data_range / the frame reader address other groups than the writer made")
+    bad = []
+    for i, k in enumerate(k_ for k_ in data.items if str(k_) in ("0", "1", "2")):
+        g = data.items[k]
+        attrs = {str(a): v for a, v in g.attrs.items.items()}
+        want = {"step": i * MANY, "time": float(i), "dt": 1.0}
+        for a, v in want.items():
+            if a not in attrs:
+                bad.append(f"frame {k}: attribute `{a}` is not written")
+            elif attrs[a] != v:
+                bad.append(f"frame {k}: attribute `{a}` is {attrs[a]!r}, the state handed in says {v!r}")
+        have = set(map(str, g.items))
+        for d in ("psi", "mu"):
+            if d not in have:
+                bad.append(f"frame {k}: dataset `{d}` is not written")
+        if i >= 1:
+            rs = next((g.items[x] for x in g.items if str(x) == "running_state"), None)
+            recs = set(map(str, rs.items)) if rs is not None else set()
+            for r in sizes:
+                if r not in recs:
+                    bad.append(f"frame {k}: record `{r}` is not written")
+    ctx.ob("R05.14", "each frame carries step / time / dt of its state, its arrays and (from frame 1) its records", not bad, detail=bad[:6], where=f.fq,
+           loc=loc(f, f.node), construct="frame contents", message="; ".join(bad[:3]),
+           consequence="a frame without (or with wrong) labels cannot be matched to a step and a time: Solution.times, closest_solve_step and the "
+                       "per-step records lose their anchor")
+
+
 def completed_records_kept(ctx):
     """R05.13.  The cursor `RunningState.step` is the column the step in progress writes to; it is advanced after the update
     returns, so columns below it hold the records of completed steps.  Every column store in a method of RunningState is classified by
@@ -192,6 +235,9 @@ def check(ctx):
     ctx.rule("R05.6", "reported frame times are exclusive prefix sums of dt (frame s <-> sum of the first s steps)", 1)
     ctx.rule("R05.7", "the reader's dt > 0 mask only drops unfilled buffer tail: buffers are zero-initialised", 2)
     frs = repo.func(RUNNER, "Runner._run_stage")
+    ctx.rule("R05.14", "every frame group carries the labels (step, time, dt) of the state it was saved with, every array of the data it was handed and - "
+                       "from the second frame on - every per-step record: the frame writer followed on the model output file", 2)
+    frame_contents(ctx)
     ctx.rule("R05.13", "records of completed steps are never rewritten: outside clear(), no method of the record buffer stores into a column below the cursor", 1)
     completed_records_kept(ctx)
 
